@@ -33,6 +33,7 @@ from .base import (
 from numpy import (
     bool_,
     full,
+    inf,
     isinf,
     where,
     zeros,
@@ -157,7 +158,9 @@ class Parallel(Connection):
         if shorted.all():
             return complex(0, 0) * f
         elif num_open_paths == len(self._elements):
-            raise InfiniteImpedance()
+            # Every path is open, which means that this connection is itself
+            # an open path (e.g., of an enclosing parallel connection).
+            return full(f.shape, inf, dtype=ComplexImpedance)
 
         results: ComplexImpedances = zeros(f.shape, dtype=ComplexImpedance)
 
